@@ -29,6 +29,10 @@ def main():
             bad += 1
             continue
         obls = res["obligations"]
+        if len(obls) + res["trivial"] == 0:
+            print("ERROR %s: no obligation was generated (%d path(s)): the contract did not attach" % (tgt, res["paths"]))
+            bad += 1
+            continue
         print("   symbolic execution: %.1fs, %d paths, %d obligations" % (time.time() - t0, res["paths"], len(obls)))
         if only is not None:
             obls = [o for o in obls if only in o.name]
